@@ -322,6 +322,46 @@ func runC09(c *eng.Ctx) {
 	// ---- 8/9. prepare-flush guard and flush commit order, four stores (shared with C10) ----------------------------
 	flushLifecycleRules(c)
 
+	// ---- 9a. the live schema's field list is append-only: nobody reorders it -----------------------------------------------------------
+	// (the schema flush copies the list, writes the copy and then marks "persisted" BY POSITION in the live list; GetSchema hands
+	// the live object to queries. A sort of that list between the copy and the marking flags a field that was never written)
+	c.Rule("PROV", "series/metric.Schema.Fields{never reordered in place}", func() {
+		fieldsKey := "series/metric.Schema.Fields"
+		n := 0
+		perFn := map[*ssa.Function]int{}
+		for _, fn := range p.AllFuncs {
+			for _, b := range fn.Blocks {
+				for _, in := range b.Instrs {
+					cl, ok := in.(*ssa.Call)
+					if !ok {
+						continue
+					}
+					g := cl.Common().StaticCallee()
+					if g == nil || g.Pkg == nil || g.Pkg.Pkg.Path() != "sort" && g.Pkg.Pkg.Path() != "slices" {
+						continue
+					}
+					switch g.Name() {
+					case "Sort", "Stable", "Slice", "SliceStable", "SortFunc", "SortStableFunc", "Reverse":
+					default:
+						continue
+					}
+					n++
+					if len(cl.Common().Args) == 0 {
+						continue
+					}
+					a := cl.Common().Args[0]
+					live := eng.DependsOnField(a, fieldsKey)
+					perFn[fn]++
+					c.Check(!live, fmt.Sprintf("sorts-no-live-field-list@%s[%d]", p.FuncKey(fn), perFn[fn]), cl, fn,
+						"a sort in "+p.FuncKey(fn)+" does not reorder the field list of a schema object (it may sort a copy)", "sorts "+p.Desc(a))
+				}
+			}
+		}
+		if n < 8 {
+			c.Undecided("expected >= 8 sort calls in the module, found %d", n)
+		}
+	})
+
 	// ---- 9b. the schema flush marks persisted exactly what it wrote -----------------------------------------------------------------
 	c.Rule("ATOMIC", mssT+".Flush{written == marked}", func() { schemaFlushMarksWhatItWrote(c) })
 
